@@ -158,8 +158,17 @@ def check_dispatch(sim, env, instructions, violate, count, seen=None):
                 violate("C12", "not-minimum-cost", f"fleet {f}: pairing costs {cost} cells, the optimum is {opt} ({len(V)}x{len(R)})", fleet=f, pairs=[(i.vehicle_id, i.request_id) for i in I][:10])
 
 
+ALL_STATES = ("idle", "repositioning", "chargingbase", "reservebase", "chargingstation", "dispatchbase", "dispatchstation", "chargequeueing")
+
+
 class C12(Monitor):
     prop = "C12"
+
+    def start(self, ctx):
+        import random
+
+        self.rnd = random.Random(ctx.case.get("case_seed", 0) + 12)
+        self.extra = int(ctx.opts.get("c12_extra", 0))
 
     def on_step(self, ctx):
         for name, t, ins, sim in ctx.gen_log:
@@ -167,3 +176,21 @@ class C12(Monitor):
                 continue
             ctx.count("c12_invocations")
             check_dispatch(sim, ctx.env, ins, ctx.violate, ctx.count, ctx.seen)
+        # the real dispatcher on the reached state under other dispatcher settings (pure call, nothing is applied):
+        # more activities made dispatchable, range thresholds around the charge levels present
+        if self.extra and ctx.k % self.extra == 0:
+            from nrel.hive.dispatcher.instruction_generator.dispatcher import Dispatcher
+
+            env, s = ctx.env, ctx.s
+            cfg = env.config.dispatcher
+            ranges = sorted(range_km(v, env.mechatronics[v.mechatronics_id]) for v in s.vehicles.values() if v.mechatronics_id in env.mechatronics)
+            for rep in range(2):
+                states = tuple(sorted(self.rnd.sample(ALL_STATES, self.rnd.randint(1, len(ALL_STATES)))))
+                thr = self.rnd.choice(ranges) + self.rnd.choice([-0.5, 0.0, 0.5]) if ranges and self.rnd.random() < 0.7 else self.rnd.choice([0.0, 5.0, 20.0, 60.0])
+                cfg2 = cfg._replace(valid_dispatch_states=states, matching_range_km_threshold=max(0.0, thr), base_charging_range_km_threshold=self.rnd.choice([0.0, 20.0, 100.0, thr + 10]))
+                env2 = env._replace(config=env.config._replace(dispatcher=cfg2))
+                _, ins = Dispatcher(cfg2).generate_instructions(s, env2)
+                ctx.count("c12_direct_invocations")
+                check_dispatch(s, env2, ins, ctx.violate, ctx.count, ctx.seen)
+                for st in states:
+                    ctx.seen("c12_dispatchable_states", st)
